@@ -126,6 +126,14 @@ func NewRun(id, tier string) *Run {
 
 func (r *Run) Thorough() bool { return r.Tier == "thorough" }
 
+// HasViolations reports whether anything has been merged into the run as a violation (for replays that
+// re-run a phase).
+func (r *Run) HasViolations() bool {
+	r.mu.Lock()
+	defer r.mu.Unlock()
+	return len(r.total.viols) > 0
+}
+
 // SetBudget sets the internal deadline; a run that hits it stops early with exhaustive=false.
 func (r *Run) SetBudget(d time.Duration) { r.Deadline = r.Start.Add(d) }
 
